@@ -68,7 +68,7 @@ func runC01(r *ev.Recorder) {
 	r.Rule = "(i) corpus: every .go file (testdata and _ directories excluded) below GOROOT/src of the installed toolchain and below the repository itself (thorough: also /opt/veriftools/go1.26.8/src) - a complete enumeration of a fixed finite set in sorted order - " +
 		"is parsed, translated construct by construct into DSL calls (internal/a2j: the element the README documents for each construct), rendered with File.Render, re-parsed, and both trees compared in canonical form " +
 		"(internal/norm: positions, comments, redundant parentheses and empty statements dropped; literals by value; all-keyed composite literals as key-sorted lists and conventional struct tags as key-sorted maps, the documented ordering of Dict and Tag). " +
-		"Every fourth file (thorough: every file) is also translated with each declaration added to the File before it is completed, with the ...Func variant at every list site, with every selector chain a.b.c built once and Clone()d at each use, with the package names stated through one ImportNames table that is overwritten right afterwards, and with every literal built through LitFunc/LitRuneFunc from a callback reading a cursor that is overwritten straight after the constructing call. (ii) generated programs: see coverage.generated; and 13 deep or long shapes (else-if chains, nested calls / parentheses / blocks / function literals / composite literals / switches, operand and selector chains) of 25..800 links. Skips are counted with their reason, never silent. distinct_nontrivial = distinct files / programs translated and compared (each contains at least one declaration)"
+		"Every fourth file (thorough: every file) is also translated with each declaration added to the File before it is completed, with the ...Func variant at every list site, with every selector chain a.b.c built once and Clone()d at each use, with the package names stated through one ImportNames table that is overwritten right afterwards, and with every literal built through LitFunc/LitRuneFunc from a callback reading a cursor that is overwritten straight after the constructing call. Another fourth of the files (thorough: every file) is rendered with File.NoFormat and the raw text re-parsed. (ii) generated programs: see coverage.generated; and 13 deep or long shapes (else-if chains, nested calls / parentheses / blocks / function literals / composite literals / switches, operand and selector chains) of 25..800 links. Skips are counted with their reason, never silent. distinct_nontrivial = distinct files / programs translated and compared (each contains at least one declaration)"
 	r.Assume = []string{"files with dot imports are skipped (uses of a dot import cannot be found syntactically), as are files importing one path twice (not expressible: the import table is keyed by path) and files that do not parse",
 		"go/parser, go/printer and go/constant define syntax trees and literal values"}
 
@@ -101,6 +101,15 @@ func runC01(r *ev.Recorder) {
 				if b2.Kind != "ok" {
 					b = b2
 					b.Kind += "(early-add+Func-forms)"
+				}
+			}
+			if b.Kind == "ok" && (r.Tier == ev.Thorough || i%4 == 1) {
+				// and with File.NoFormat: the raw rendering re-parses to the same tree
+				b3 := roundTrip(path, src, res.name, a2j.Hooks{NoFormat: true})
+				r.Eval(1)
+				if b3.Kind != "ok" {
+					b = b3
+					b.Kind += "(NoFormat)"
 				}
 			}
 			rel := strings.TrimPrefix(path, root+"/")
